@@ -96,6 +96,10 @@ pub fn post_hook_journal(v: &Value) -> Value {
             std::fs::create_dir_all(journal.join("x")).unwrap();
         }
         Some("non_utf8") => std::fs::write(&journal, [0xff, 0xfe, b'\n']).unwrap(),
+        Some("stale_lock") => {
+            std::fs::write(journal.with_extension("lock"), b"").unwrap();
+            std::fs::write(journal.with_extension("tmp"), b"half").unwrap();
+        }
         _ => {}
     }
     repo.handle_rewrite_log_event(event(7), "A <a@b>".to_string(), true, false);
